@@ -342,6 +342,14 @@ def run_reject_case(a):
             open(os.path.join(app, "src-tauri", "src", "lib.rs") if os.path.isdir(os.path.join(app, "src-tauri", "src")) else os.path.join(app, "src-tauri", "lib.rs"), "w").write("pub fn helper() {}\n")
         elif kind == "bad-validation-file":
             cfg = {"validation_library": "joi"}
+        elif kind == "empty-validation-file":
+            cfg = {"validation_library": ""}            # present and not a supported library: the default does not stand in for it
+        elif kind == "blank-validation-file":
+            cfg = {"validation_library": " "}
+        elif kind == "empty-project-file":
+            cfg = {"project_path": ""}
+        elif kind == "blank-project-file":
+            cfg = {"project_path": "  "}
         elif kind == "missing-project-flag":
             argv += ["-p", "./does-not-exist"]
         elif kind == "missing-project-file":
@@ -363,7 +371,7 @@ def run_reject_case(a):
                 argv += ["-c", "c.json"]
             else:
                 camel = {"validationLibrary": cfg.get("validation_library"), "projectPath": cfg.get("project_path")}
-                json.dump({"plugins": {"typegen": {k: v for k, v in camel.items() if v}}}, open(os.path.join(app, "tauri.conf.json"), "w"))
+                json.dump({"plugins": {"typegen": {k: v for k, v in camel.items() if v is not None}}}, open(os.path.join(app, "tauri.conf.json"), "w"))
         if kind.startswith("init-"):
             # the same rejections on the `init` entry path, which writes a configuration document before it generates:
             # an invalid setting must be refused before that document (or anything else) is touched
@@ -569,6 +577,7 @@ def run(tier):
     rjobs = [(cli, kind, source) for kind in ("file-project-missing-but-flag-valid", "file-validation-bad-but-flag-valid") for source in ("tauri.conf.json", "-c")]
     rjobs += [(cli, kind, source) for kind in ("bad-validation-flag", "bad-validation-file", "missing-project-flag", "missing-project-file", "missing-project-default", "missing-config-file")
              for source in ("tauri.conf.json", "-c")]
+    rjobs += [(cli, kind, source) for kind in ("empty-validation-file", "blank-validation-file", "empty-project-file", "blank-project-file") for source in ("tauri.conf.json", "-c")]
     rjobs += [(cli, kind, source) for kind in ("init-bad-validation", "init-bad-validation-case-variant", "init-missing-project", "init-refused-existing-file") for source in ("tauri.conf.json", "-c")]
     rjobs += [(cli, kind, source) for kind in ("bad-validation-case-variant-flag", "bad-validation-case-variant-file", "bad-validation-case-variant-no-commands") for source in ("tauri.conf.json", "-c")]
     for (job, r) in zip(rjobs, common.pmap(run_reject_case, rjobs)):
